@@ -5,6 +5,8 @@ the class by reference.
 """
 from __future__ import annotations
 
+import collections
+
 import inspect
 import zlib
 
@@ -77,6 +79,8 @@ def canon(v):
         return v
     if isinstance(v, (list, tuple)):
         return tuple(canon(e) for e in v)
+    if isinstance(v, collections.OrderedDict):
+        return ("<odict>", tuple((str(k), canon(x)) for k, x in v.items()))  # the order of an OrderedDict is part of its value
     if isinstance(v, dict):
         return ("<dict>", tuple(sorted((str(k), canon(x)) for k, x in v.items())))
     if isinstance(v, ResultLike):
